@@ -88,7 +88,8 @@ ShapeMatches(e) ==      \* the rendered text has the shape the specification ask
 TrDeliver ==
     /\ IsEvent("Deliver")
     /\ Chk("BIND", "document_has_the_requested_shape", l, ShapeMatches(E))
-    /\ Chk("C06", "documents_are_only_delivered_to_emitted_entry_points", l, E.ep \in EpKinds(P))
+    /\ Chk("C06", "documents_are_only_delivered_to_emitted_entry_points", l,
+           E.ep \in (IF E.via = "ep" THEN EpKinds(P) ELSE MtKinds(P)))
     /\ IF E.remote = ""
        THEN Deliver(E.ep, DocOf(E))
        ELSE /\ Chk("BIND", "remote_flight_follows_its_RemoteMsg", l, fx.remote # <<>> /\ fx.remote.helper = E.remote)
